@@ -94,6 +94,10 @@ func (g *Gen) GenData() *Val {
 		add(fmt.Sprintf("o%d", i), "obj", o, keys)
 	}
 	add("x0", "nil", VNil(), nil)
+	if r.Chance(30) {
+		// a Go map whose keys are not strings
+		add("m0", "obj", Val{T: "intmap", K: []string{"1", "2", "3"}, V: []Val{VStr("one"), VStr("two"), VStr("three")}}, nil)
+	}
 	if g.ArgClash {
 		// variables named like the components' arguments, of another type: binding such an argument
 		// clashes with the enclosing scope
@@ -467,6 +471,8 @@ func (g *Gen) Stmt(depth int) string {
 		}
 		if r.Chance(15) {
 			body += "@breakIf(loop.index == 1)"
+		} else if r.Chance(15) {
+			body = "@continueIf(loop.first)" + body
 		}
 		g.InLoop--
 		g.vars = g.vars[:save]
